@@ -97,7 +97,7 @@ PROPS = {
                 "timestamps; distinct = distinct program hash; non-trivial = the limit stopped the run with events remaining or "
                 "sits exactly on a boundary (n == total, T == a timestamp)",
         "fault_probes": ["limit_stopped_run", "limit_on_boundary"],
-        "expected_probes": ["limit_stopped_run", "limit_on_boundary"],
+        "expected_probes": ["limit_stopped_run", "limit_on_boundary", "handler_panic_caught_by_the_driver"],
         "components": {"real": ["des::runtime::{Runtime, Builder, RuntimeLimit, Profiler} (real code)"],
                        "stub": ["Application / Event implementations: harness interpreter of the generated program"]},
         "assumptions": ["cqueue backend (default feature set)", "sampled programs and limits, not exhaustive"],
